@@ -16,6 +16,9 @@ theories/Runner.vos theories/Runner.vok theories/Runner.required_vos: theories/R
 theories/RunnerEq.vo theories/RunnerEq.glob theories/RunnerEq.v.beautified theories/RunnerEq.required_vo: theories/RunnerEq.v theories/Base.vo theories/Status.vo theories/Rollup.vo theories/Runner.vo
 theories/RunnerEq.vio: theories/RunnerEq.v theories/Base.vio theories/Status.vio theories/Rollup.vio theories/Runner.vio
 theories/RunnerEq.vos theories/RunnerEq.vok theories/RunnerEq.required_vos: theories/RunnerEq.v theories/Base.vos theories/Status.vos theories/Rollup.vos theories/Runner.vos
+theories/RunnerHooks.vo theories/RunnerHooks.glob theories/RunnerHooks.v.beautified theories/RunnerHooks.required_vo: theories/RunnerHooks.v theories/Base.vo theories/Status.vo theories/Rollup.vo theories/Runner.vo theories/RunnerSteps.vo theories/RunnerQuiet.vo gen/StatusTable.vo
+theories/RunnerHooks.vio: theories/RunnerHooks.v theories/Base.vio theories/Status.vio theories/Rollup.vio theories/Runner.vio theories/RunnerSteps.vio theories/RunnerQuiet.vio gen/StatusTable.vio
+theories/RunnerHooks.vos theories/RunnerHooks.vok theories/RunnerHooks.required_vos: theories/RunnerHooks.v theories/Base.vos theories/Status.vos theories/Rollup.vos theories/Runner.vos theories/RunnerSteps.vos theories/RunnerQuiet.vos gen/StatusTable.vos
 theories/RunnerQuiet.vo theories/RunnerQuiet.glob theories/RunnerQuiet.v.beautified theories/RunnerQuiet.required_vo: theories/RunnerQuiet.v theories/Base.vo theories/Status.vo theories/Rollup.vo theories/Runner.vo theories/RunnerSteps.vo theories/RunnerVerdict.vo gen/StatusTable.vo
 theories/RunnerQuiet.vio: theories/RunnerQuiet.v theories/Base.vio theories/Status.vio theories/Rollup.vio theories/Runner.vio theories/RunnerSteps.vio theories/RunnerVerdict.vio gen/StatusTable.vio
 theories/RunnerQuiet.vos theories/RunnerQuiet.vok theories/RunnerQuiet.required_vos: theories/RunnerQuiet.v theories/Base.vos theories/Status.vos theories/Rollup.vos theories/Runner.vos theories/RunnerSteps.vos theories/RunnerVerdict.vos gen/StatusTable.vos
@@ -43,3 +46,6 @@ props/C03.vos props/C03.vok props/C03.required_vos: props/C03.v theories/Base.vo
 props/C09.vo props/C09.glob props/C09.v.beautified props/C09.required_vo: props/C09.v theories/Base.vo theories/Status.vo theories/Rollup.vo theories/Runner.vo theories/RunnerSteps.vo theories/RunnerQuiet.vo theories/RunnerSelect.vo theories/RunnerEq.vo gen/StatusTable.vo
 props/C09.vio: props/C09.v theories/Base.vio theories/Status.vio theories/Rollup.vio theories/Runner.vio theories/RunnerSteps.vio theories/RunnerQuiet.vio theories/RunnerSelect.vio theories/RunnerEq.vio gen/StatusTable.vio
 props/C09.vos props/C09.vok props/C09.required_vos: props/C09.v theories/Base.vos theories/Status.vos theories/Rollup.vos theories/Runner.vos theories/RunnerSteps.vos theories/RunnerQuiet.vos theories/RunnerSelect.vos theories/RunnerEq.vos gen/StatusTable.vos
+props/C12.vo props/C12.glob props/C12.v.beautified props/C12.required_vo: props/C12.v theories/Base.vo theories/Status.vo theories/Rollup.vo theories/Runner.vo theories/RunnerVerdict.vo theories/RunnerSteps.vo theories/RunnerQuiet.vo theories/RunnerSelect.vo theories/RunnerHooks.vo theories/RunnerEq.vo gen/StatusTable.vo
+props/C12.vio: props/C12.v theories/Base.vio theories/Status.vio theories/Rollup.vio theories/Runner.vio theories/RunnerVerdict.vio theories/RunnerSteps.vio theories/RunnerQuiet.vio theories/RunnerSelect.vio theories/RunnerHooks.vio theories/RunnerEq.vio gen/StatusTable.vio
+props/C12.vos props/C12.vok props/C12.required_vos: props/C12.v theories/Base.vos theories/Status.vos theories/Rollup.vos theories/Runner.vos theories/RunnerVerdict.vos theories/RunnerSteps.vos theories/RunnerQuiet.vos theories/RunnerSelect.vos theories/RunnerHooks.vos theories/RunnerEq.vos gen/StatusTable.vos
